@@ -82,6 +82,28 @@ theorem orderLists_perm (order : List Nat) (lists : List (Nat × List Nat))
   refine (List.Perm.append_right _ h1).trans ?_
   exact (List.filter_append_perm (fun kv => order.contains kv.1) lists)
 
+/-- several lists, end to end: whatever loop order the optimiser chose (any duplicate-free `order`,
+    listing any subset of the keys or foreign keys), the number of results is the product of the lengths
+    of the list-valued arguments **as the user passed them** — the order cannot add or drop a combination -/
+theorem multi_list_count_order_independent (order : List Nat) (kwargs : List (Nat × List Nat))
+    (a b : Nat × List Nat) (rest : List (Nat × List Nat)) (h : loopLists kwargs = a :: b :: rest)
+    (hk : ((loopLists kwargs).map (·.1)).Nodup) (ho : order.Nodup) :
+    (combos order kwargs).length = ((loopLists kwargs).map (fun kv => kv.2.length)).prod := by
+  rw [multi_list_count order kwargs a b rest h, List.map_map]
+  exact ((orderLists_perm order (loopLists kwargs) hk ho).map _).prod_eq
+
+/-- and two different loop orders yield the same number of results -/
+theorem count_same_for_any_two_orders (o₁ o₂ : List Nat) (kwargs : List (Nat × List Nat))
+    (a b : Nat × List Nat) (rest : List (Nat × List Nat)) (h : loopLists kwargs = a :: b :: rest)
+    (hk : ((loopLists kwargs).map (·.1)).Nodup) (h₁ : o₁.Nodup) (h₂ : o₂.Nodup) :
+    (combos o₁ kwargs).length = (combos o₂ kwargs).length := by
+  rw [multi_list_count_order_independent o₁ kwargs a b rest h hk h₁,
+      multi_list_count_order_independent o₂ kwargs a b rest h hk h₂]
+
+/-- premises satisfiable: a 2×1×3 call under two loop orders -/
+example : (combos [7, 3] [(3, [10, 11]), (5, [1]), (7, [20, 21, 22])]).length = 6 ∧
+    (combos [3] [(3, [10, 11]), (5, [1]), (7, [20, 21, 22])]).length = 6 := by decide
+
 /-! ## labels -/
 
 /-- A label identifies its combination uniquely: for a fixed loop order, if every (key,value) token
